@@ -138,8 +138,12 @@ def run_suites(pid, suites, tier, seed, vh, known, evidence):
         if ops:
             k = rng.randrange(len(ops))
             samples.append({"suite": suite.name, "op": _trunc(ops[k]), "impl": _trunc(impl[k]), "model": _trunc(model[k])})
+        rec = [i["recovered_crash"][:400] for i in impl if isinstance(i, dict) and i.get("recovered_crash")]
         per_suite[suite.name] = {"cases": len(ops), "spec_violations": nv, "disagreements": nd, "skipped": nskip,
                                  "wall_s": round(time.time() - t0, 2)}
+        if rec:
+            per_suite[suite.name]["process_deaths_not_reproduced"] = {"count": len(rec), "first": rec[0]}
+            log("[suite] %s: %d process death(s) that did not reproduce when the op was run alone" % (suite.name, len(rec)))
         log("[suite] %s: %d cases, %d spec violations, %d disagreements%s, %.1fs" % (
             suite.name, len(ops), nv, nd, ", %d skipped" % nskip if nskip else "", time.time() - t0))
         # vacuity guard: a run in which the cases are not executed decides nothing. (Unchanged tree: < 3% skipped in every suite.)
